@@ -104,16 +104,25 @@ def _check_zero_guard_lambda(model, name, pyop):
     raise AnalysisError(f"helper {name} not found in _ValueCompiler.helpers")
 
 
+# which normaliser the code generator must apply to an operand before using it (value-preserving `sign` for
+# everything whose result depends on the operand's numeric value; bit-pattern `mask` for pure bit-pattern operators)
+NORMALISER = {("~", 1): {"mask"}, ("b", 1): {"mask", "sign"}, ("r|", 1): {"mask", "sign"}, ("r&", 1): {"mask"},
+              ("r^", 1): {"mask"}, ("-", 1): {"sign"}}
+
+
 def r01b(model, ctx):
+    from ..engine.astutil import parse_guard, candidate_leaves
     uni, _ = interp.operator_universe(model)
     # ---- code generator
-    fn, lvs = interp.leaves(model, f"{PYRTL}::_RHSValueCompiler.on_Operator")
+    fn = model.func(f"{PYRTL}::_RHSValueCompiler.on_Operator")
+    lvs = dispatch_leaves(fn.body, guard=parse_guard)      # lenient: conditional handlers are kept as candidates
     for (sym, arity) in sorted(uni):
-        lf = select_leaf(lvs, env_for(sym, arity))
+      for lf in candidate_leaves(lvs, env_for(sym, arity)):
         if not handled(lf):
             continue
+        extra = [a[1] for a in lf.conds if a[0] == "unknown"]
         where = f"{PYRTL}:{lf.lineno}"
-        cons = f"_RHSValueCompiler.on_Operator:{sym}/{arity}"
+        cons = f"_RHSValueCompiler.on_Operator:{sym}/{arity}" + (f"@if {' and '.join(extra)}" if extra else "")
         opn = _operand_names(lf)
         ret = [s for s in lf.body if isinstance(s, ast.Return)]
         need(len(ret) == 1 and ret[0].value is not None, f"{where}: branch for {sym!r} is not a single return")
@@ -126,9 +135,26 @@ def r01b(model, ctx):
             continue
         t = template_of(rv)
         need(t is not None, f"{where}: branch for {sym!r} does not return a template")
-        e = t.as_expr()
+        subs = {h.idx: sym for h in t.holes if h.src.endswith(".operator")}
+        try:
+            e = ast.parse(t.text_with(subs).strip(), mode="eval").body
+        except SyntaxError:
+            e = None
         need(e is not None, f"{where}: generated code for {sym!r} is not an expression: {t.skeleton()!r}")
         H = lambda n: _hole_operand(t, n, opn)
+        # normaliser discipline
+        want_norm = NORMALISER.get((sym, arity), {"sign"})
+        for h in t.holes:
+            hit = [opn[n] for n in names_in(h.expr) if n in opn]
+            if len(hit) == 1 and isinstance(h.expr, ast.Call):
+                callee = (dotted(h.expr.func) or "").split(".")[-1]
+                if callee in ("sign", "mask"):
+                    ctx.check(callee in want_norm, "R-01b", cons + f":operand{hit[0]}:normaliser",
+                              f"operand {hit[0]} normalised with {callee}()",
+                              f"operator {sym!r} needs its operand {hit[0]} normalised with {'/'.join(sorted(want_norm))}() "
+                              f"but the generated code uses {callee}(): mask() yields the unsigned bit pattern, sign() "
+                              f"the numeric value in the operand's own shape (they differ for negative signed operands)",
+                              where)
         ok, why = False, ""
         if arity == 2 and sym in BIN_PY and sym not in ("//", "%"):
             ok = isinstance(e, ast.BinOp) and isinstance(e.op, BIN_PY[sym]) and H(e.left) == 0 and H(e.right) == 1
@@ -177,13 +203,17 @@ def r01b(model, ctx):
                   f"generated code {t.skeleton()!r} does not implement {sym!r}: {why}", where)
 
     # ---- evaluator
-    fn, lvs = interp.leaves(model, f"{PYEVAL}::eval_value")
+    fn = model.func(f"{PYEVAL}::eval_value")
+    lvs = dispatch_leaves(fn.body, guard=parse_guard)
     for (sym, arity) in sorted(uni):
-        lf = select_leaf(lvs, env_for(sym, arity))
+      for lf in candidate_leaves(lvs, env_for(sym, arity)):
         if not handled(lf):
             continue
+        if sym in ("u", "s") and arity == 1:
+            continue      # decided by R-01d on the whole branch
+        extra = [a[1] for a in lf.conds if a[0] == "unknown"]
         where = f"{PYEVAL}:{lf.lineno}"
-        cons = f"eval_value:{sym}/{arity}"
+        cons = f"eval_value:{sym}/{arity}" + (f"@if {' and '.join(extra)}" if extra else "")
         opn = _operand_names(lf)
         need(len(opn) >= arity, f"{where}: cannot recover operand variable names for {sym!r}")
         inv = {v: k for k, v in opn.items()}
@@ -533,6 +563,19 @@ def r01g(model, ctx):
                       f"`int({unparse(e)}, 2)` raises ValueError for the empty pattern that a zero-width selector "
                       f"produces; the sibling decoders guard this with `\"0\" + ...` / `pattern or \"0\"` / "
                       f"a `\"-\" in pattern` test", f"{rel}:{n.lineno}")
+        if name == "Value.matches":
+            # every comparison built for a *string* pattern must mask the value (a bare `self == int` compares a signed
+            # value numerically with an unsigned pattern)
+            for br in ast.walk(fn):
+                if isinstance(br, ast.If) and pmatch("isinstance(pattern, str)", br.test) is not None:
+                    for n in ast.walk(ast.Module(body=br.body, type_ignores=[])):
+                        if isinstance(n, ast.Call) and unparse(n.func) == "matches.append" and len(n.args) == 1:
+                            okm = pmatch("(self & _V_M) == _V_P", n.args[0]) is not None
+                            ctx.check(okm, "R-01g", f"Value.matches:str-pattern:{unparse(n.args[0])[:40]}",
+                                      "(self & mask) == pattern",
+                                      f"a string pattern must be matched as (self & mask) == value; found "
+                                      f"{unparse(n.args[0])}: comparing a signed value directly with the unsigned "
+                                      f"integer of the pattern never matches patterns whose MSB is 1", f"{rel}:{n.lineno}")
         ctx.check(mask_ok and val_ok and cmp_ok and not extra, "R-01g", name,
                   "'-'->(mask 0, value 0), '0'/'1'->(mask 1, value bit); test: value == (mask & test)",
                   f"pattern decoding deviates from ('-'->mask 0/value 0, '0'/'1'->mask 1/value bit; "
